@@ -88,7 +88,7 @@ def inputs_of(m, scale=1.0, steps=None):
 
 
 def run_model(m, cfg, scale=1.0, precision='float64', backend='default', cutoff_shift=0.0, node_order=None,
-              delay_jitter=0.0, decorator=None, form='nodes', **kw):
+              delay_jitter=0.0, decorator=None, form='nodes', decimal=False, **kw):
     """Returns dict(index=[...], rows=[[x_1..x_n] per row]) or dict(exc=type name)."""
     import numpy as np
     warnings.filterwarnings('ignore')
@@ -96,6 +96,8 @@ def run_model(m, cfg, scale=1.0, precision='float64', backend='default', cutoff_
     steps, store = cfg['steps'], cfg['store']
     T, dt, dts = steps * scale, scale, store * scale
     cutoff = max(cfg['cut'] - cutoff_shift, 0) * scale
+    if decimal:      # the floats a user writes for a decimal step size: 0.3, not 3 * 0.1 = 0.30000000000000004
+        T, dt, dts, cutoff = round(T, 12), round(dt, 12), round(dts, 12), round(cutoff, 12)
     inp = inputs_of(m, scale, steps)
     if form == 'nodes':
         outs = {f'o{i}': f"n{i}/lin{m['kind'][i - 1]}/x" for i in range(1, m['n'] + 1)}
